@@ -374,7 +374,7 @@ func init() {
 			"every log is also run through the WAL protocol model (rules R2 ack-after-synced-commit, R4 checkpoint-complete-after-primary-synced, R5 truncate-only-when-checkpointed): a broken rule makes the checker execute the power-loss witness for that rule and the end-to-end oracle decides. " +
 			"states = distinct (device image) recovered; transitions = scheduler steps; traces_validated = executions whose log the protocol model accepted or whose witness was judged",
 		Assume:   []string{"process-crash model for the enumerated prefixes; power loss only for rule-directed witnesses (quick) ", "UTC", "restart failures themselves are judged by C03"},
-		QuickMax: 8 * time.Minute, ThorMax: 45 * time.Minute,
+		QuickMax: 8 * time.Minute, ThorMax: 30 * time.Minute,
 		Extra:    nil,
 	}, schedEnum(c05Scens, func(c *mc.Ctx, si int) int {
 		if c.Thorough() {
